@@ -8,6 +8,7 @@
     Conforms_iff_conf_card  Conforms g ctx o c ↔ conf g ctx |U| o c = true
     gfp_eq_conf_card        gfp g ctx o c = conf g ctx |U| o c
     gfp_iff_Conforms        gfp g ctx o c = true ↔ Conforms g ctx o c
+    machine_eq_oracle_F1    on fragment F1 the machine's verdict = gfp (from Props/C08 machine_eq_conforms_F1)
 
   Proof: (1) U is closed: `confStep g ctx f` at a pair of U reads `f` only at pairs of U
   (`confStep_congr_univ`); (2) the number of pairs of U on which `conf n` holds decreases strictly
@@ -631,5 +632,16 @@ example : gfp [((1, 0), .dict (.cons [0x4e] (.ref 1 0) .nil))]
     [("node", .dict Attr.dflt (.cons [0x4e] .required (.named "node")
         (.cons [0x58] .required (.prim Attr.dflt .integer) .nil)))]
     (.ref 1 0) (.named "node") = false := by decide
+
+/-- on fragment F1 the machine (code as it is) computes exactly the judge's executable oracle -/
+theorem machine_eq_oracle_F1 (g : Graph) (ctx : Ctx) (o : Obj) (c : Chk) (hF : Frag.inF1 ctx c = true) :
+    verdict (checkTypeFuel Fix.tree g ctx (Term.workBound Fix.tree g ctx o c) o c) = gfp g ctx o c := by
+  have h1 := machine_eq_conforms_F1 g ctx o c hF
+  have h2 := gfp_iff_Conforms g ctx o c
+  cases hv : verdict (checkTypeFuel Fix.tree g ctx (Term.workBound Fix.tree g ctx o c) o c) <;>
+    cases hg : gfp g ctx o c <;> simp_all
+
+-- non-vacuity: the recursive type / cyclic graph instance of Props/C08.lean
+example : Frag.inF1 nodeCtx (.named "node") = true := by decide
 
 end Parsley.C08
